@@ -72,7 +72,7 @@ def file_safe(text: str) -> bool:
     return "\r" not in text and text.isascii()
 
 
-def analyse(lang: str, text: str, via_file: bool = True):
+def analyse(lang: str, text: str, via_file: bool = True, fname: str | None = None):
     """What the scanner reports for a file holding `text`: [(name, start line, start col, end line, end col, length)].
     The text goes through the scanner's own file path (scan_path on a scratch directory: reading, lexer by file
     name, lex, scan_file) whenever a file holding it reads back unchanged; otherwise lex + scan_file on the string."""
@@ -81,14 +81,17 @@ def analyse(lang: str, text: str, via_file: bool = True):
 
         d = _scratch() / lang.replace("+", "p").replace("#", "s")
         d.mkdir(exist_ok=True)
-        name = LANGS[lang]["file"]
+        name = fname or LANGS[lang]["file"]  # fname: another file name of the same language (a C header, say)
+        for old in d.iterdir():
+            if old.is_file() and old.name != name:
+                old.unlink()
         with open(d / name, "w", newline="") as f:
             f.write(text)
         # like a second `codelimit scan` in the same folder: the report of the previous analysis in this directory
         # is handed to the scanner as its cache (the file was "edited" in between)
         from codelimit.common.report.Report import Report
 
-        prev = per_process(("analyse-prev", lang), dict)
+        prev = per_process(("analyse-prev", lang, name), dict)
         cb = scan_path(d, prev.get("report"))
         prev["report"] = Report(cb)
         if list(cb.files) != [name]:
